@@ -197,7 +197,12 @@ def check_program(ctx, body, recipe, renamings=("ascii", "unicode", "keywordlike
         ctx.count("rename_" + rn)
         bad = same_outcome(eo, eo2)
         if bad:
-            if rn == "nonnfkc":
+            if rn == "nonnfkc" and not passes_keyword(b2, "\u00b5d"):
+                # the recorded finding needs a CALL that passes the renamed name by keyword;
+                # any other difference under this renaming is a different mechanism
+                ctx.violation("rename:nonnfkc:no-keyword-call", f"{bad} | src={src2!r} orig={src!r}",
+                              {**case, "renaming": rn})
+            elif rn == "nonnfkc":
                 ctx.violation("non-nfkc-identifier-changes-behaviour",
                               f"renaming d->U+00B5 d changed output: {bad} | src={src2!r}",
                               {**case, "renaming": rn})
@@ -208,6 +213,26 @@ def check_program(ctx, body, recipe, renamings=("ascii", "unicode", "keywordlike
             else:
                 ctx.violation("rename:" + rn, f"{bad} | src={src2!r} orig={src!r}",
                               {**case, "renaming": rn})
+
+
+def passes_keyword(body, name):
+    """Does some call in the program pass `name` as a keyword argument?"""
+    found = []
+
+    def fe(e):
+        if e[0] == "call" and any(k == name for k, _ in e[3]):
+            found.append(1)
+        if e[0] in ("filter",) and any(k == name for k, _ in e[4]):
+            found.append(1)
+
+    def fs(st):
+        for e in jast.stmt_exprs(st):
+            if e is not None:
+                jast.walk_expr(e, fe)
+        if st[0] == "callblock":
+            jast.walk_expr(st[2], fe)
+    jast.walk_stmts(body, fs)
+    return bool(found)
 
 
 def first_diff_kind(body, mo, eo):
